@@ -573,6 +573,15 @@ func run(raw json.RawMessage) lib.Case {
 	defer func() {
 		w.sched.ReleaseAll()
 		onet.SetVerifHook(func(string, ...interface{}) {})
+		cnt.Lock()
+		var ps []*proto
+		for _, p := range cnt.insts {
+			ps = append(ps, p)
+		}
+		cnt.Unlock()
+		for _, p := range ps {
+			p.Done() // otherwise CloseAll waits seconds for lingering instances
+		}
 		lt.CloseAll()
 	}()
 	if os.Getenv("VERIF_DEBUG") != "" {
@@ -645,9 +654,9 @@ func templates(t int) []input {
 
 func generate(rng *rand.Rand, tier string) []interface{} {
 	var ins []interface{}
-	reps := 1
+	reps := 3
 	if tier != "quick" {
-		reps = 6
+		reps = 40
 	}
 	for r := 0; r < reps; r++ {
 		for _, tpl := range templates(rng.Intn(3)) {
